@@ -12,6 +12,18 @@ ok, out, _ = vcheck.build_harness()
 print(out[-2000:])
 if not ok:
     sys.exit(1)
+# release-profile harnesses and real tool binaries that some checks need
+bins = set()
+for s in vcheck.all_specs():
+    if s.get("harness_profile") == "release":
+        okr, outr, _ = vcheck.build_harness(s, "release")
+        if not okr:
+            print(outr[-2000:]); sys.exit(1)
+    bins.update(s.get("repo_bins", []))
+if bins:
+    okb, outb, _ = vcheck.build_repo_bins(sorted(bins))
+    if not okb:
+        print(outb[-2000:]); sys.exit(1)
 # regenerate every table, then build the full development
 for s in vcheck.all_specs():
     if s.get("tables"):
